@@ -257,6 +257,11 @@ func (s *store) releaseSpace(space uint64) {
 // Fully deletes the disk state of a blob, including metadata. Works on any blob.
 func (s *store) deleteFromDisk(key string, complete bool) error {
 	dir := s.dirPath(key, complete)
+	// Remove the blob file first. If the process dies in the middle of the removal, reboot then finds a
+	// directory without a blob (which it discards) instead of a blob that lost its eviction ban or metadata.
+	if err := os.Remove(s.blobPath(key, complete)); err != nil && !errors.Is(err, os.ErrNotExist) {
+		return err
+	}
 	return os.RemoveAll(dir)
 }
 
